@@ -40,10 +40,12 @@ _FLOAT_DTYPES = (None, float, _np.float64, _np.float32, "float", "float64", "flo
 
 
 def _is_float_dtype(dt):
+    """dtypes for which constructors hand out object arrays: unspecified or float64 (an explicitly narrower
+    float dtype is a concrete request and is honoured)"""
     if dt is None:
         return True
     try:
-        return _np.issubdtype(_np.dtype(dt), _np.floating)
+        return _np.dtype(dt) == _np.float64
     except TypeError:
         return False
 
